@@ -48,7 +48,8 @@ HistClauses(r) == << <<"InstancesShareNoState", r.ok /\ r.exc = "" /\ r.nev >= 3
 (*   fcls = 2  NaN, or non-finite where the documented value is finite: rejected               *)
 (* rtx / rtp are the round-trip errors in excess of the representation error of the            *)
 (* intermediate double (8 ulp of G(p) times the pdf, resp. 8 ulp of F(x) over the pdf).        *)
-(* Probability arrays (index j): pin (p within                                              *)
+(* Probability arrays (index j, p from 1e-16 to 1 - 1e-12): ptail (p < 1e-6 or p > 1 - 1e-6), *)
+(* pin (p within                                                                               *)
 (* [1e-6, 1-1e-6]), gok (the documented cdf brackets p at G(p) -+ 1e-8 relative, up to       *)
 (* IcdfPTolE15 in p, see DistLawsOps), rtp (1e-12).                                            *)
 (* Derivative arrays: dlo, dmid, dhi, dslope (1e-6 / scale).                                 *)
@@ -69,10 +70,18 @@ LawsClauses(r) ==
         \A i \in 1..NG(r) : r.fcls[i] = 0 => (r.frel[i] <= RelTolE12 \/ r.fabs[i] <= AbsTolE12)>>,
     <<"IcdfMatchesDocumentedFormula",
         /\ r.gtolE12 = RelTolE12 /\ r.gptolE15 = IcdfPTolE15
-        /\ \A j \in 1..Len(r.gok) : r.gok[j]
+        /\ \A j \in 1..Len(r.gok) : ~r.ptail[j] => r.gok[j]
         /\ r.gend \in {"ok", "na"}>>,
-    <<"RoundTripX", \A i \in 1..NG(r) : r.rtxin[i] => r.rtx[i] <= RoundTripTolE12>>,
-    <<"RoundTripP", \A j \in 1..Len(r.rtp) : r.pin[j] => r.rtp[j] <= RoundTripTolE12>>,
+    <<"IcdfFarTailMatchesDocumentedFormula",
+        /\ r.gpulps = IcdfPUlps
+        /\ \A j \in 1..Len(r.gok) : r.ptail[j] => r.gok[j]
+        /\ Cardinality({j \in 1..Len(r.gok) : r.ptail[j]}) >= 5>>,
+    <<"RoundTripX", \A i \in 1..NG(r) : r.rtxin[i] /\ ~r.rtxtail[i] => r.rtx[i] <= RoundTripTolE12>>,
+    (* rtxtail: grid points with 1e-30 <= F(x) < 1e-6 (x down to boundary + 1e-9 inter-quartile       *)
+    (* ranges) or 1 - 1e-6 < F(x) <= 1 - 1e-9                                                          *)
+    <<"RoundTripXFarTail", \A i \in 1..NG(r) : r.rtxin[i] /\ r.rtxtail[i] => r.rtx[i] <= RoundTripTolE12>>,
+    <<"RoundTripP", \A j \in 1..Len(r.rtp) : r.pin[j] /\ ~r.ptail[j] => r.rtp[j] <= RoundTripTolE12>>,
+    <<"RoundTripPFarTail", \A j \in 1..Len(r.rtp) : r.pin[j] /\ r.ptail[j] => r.rtp[j] <= RoundTripTolE12>>,
     <<"PdfIsDerivative", PdfIsDerivative(r.dlo, r.dmid, r.dhi, r.dslope, 2)>>,
     <<"ArrayLikeKindsAgree", r.kexc = "" /\ r.kshape /\ r.krel <= KindsTolE15>>,
     <<"NormFitMoments", r.fam = "NormFit" => r.momrel <= MomentTolE12>>
@@ -83,11 +92,13 @@ LawsClauses(r) ==
 Idx(kind) == {i \in 1..Len(TraceLog) : TraceLog[i].kind = kind}
 OverrideSeen == {<<TraceLog[i].fam, TraceLog[i].E, TraceLog[i].method, TraceLog[i].argkind,
                    TraceLog[i].pass>> : i \in Idx("override")}
-LawsSeen == {<<TraceLog[i].fam, TraceLog[i].cl>> : i \in Idx("laws")}
+LawsSeen == {<<TraceLog[i].fam, TraceLog[i].cl>> : i \in {k \in Idx("laws") : TraceLog[k].ext = <<0, 0>>}}
+ExtSeen == {<<TraceLog[i].fam, TraceLog[i].cl, TraceLog[i].ext>> :
+              i \in {k \in Idx("laws") : TraceLog[k].ext # <<0, 0>>}}
 SummaryClauses(r) ==
   <<
     <<"OverrideCoverage", OverrideSeen = OverrideCases /\ Cardinality(Idx("override")) = Cardinality(OverrideCases)>>,
-    <<"LawsCoverage", LawsSeen = LawCases(r.tier)>>,
+    <<"LawsCoverage", LawsSeen = LawCases(r.tier) /\ ExtSeen = ExtremeCases>>,
     <<"HistoriesReplayed", Cardinality(Idx("hist")) = r.nhist /\ r.nhist > 0>>
   >>
 
